@@ -145,6 +145,31 @@ EXTRA2 = {'C01': 'd += x, string scalars as long as the table, derived columns f
 for _k, _v in EXTRA2.items():
     EXTRA[_k] = EXTRA[_k] + ' Later rounds: ' + _v
 
+EXTRA3 = {
+    'C01': "derived columns named after / reading the column called key, emptying a table again, a column called key at construction.",
+    'C02': "suite close (numeric keys one unit apart and floats next to ints), typed computed keys against a plain key column, a right table made of the key columns only with the names reversed.",
+    'C03': "all-keyword calls with reversed argument order, integer / bool arrays, infinite observations under ffill / bfill, the df_sync.oj.bfill property chain.",
+    'C04': "4- and 5-part spellings, lists of mixed spellings through dt / ymd, a caller-owned list of datetimes, dialect='US'.",
+    'C05': "range endpoints spelt as business-day bumps, calendar copies (cal(adj=...), Calendar(cal)), list / tuple / dict arguments of adjust with a per-call adj.",
+    'C06': "equal-record rows under type-sensitive predicates, a column called key through find_, columns called data / columns.",
+    'C07': "2**64 and -2**63-1, tuple / array value orders, sort - edit - sort on one table, tables with columns called columns / data.",
+    'C08': "suite frame_series, scalar operands (10.0 / NaN) in df_sum / mean / count, denominators of 1e-9, infinite numerators, the same objects after an in-place index shift.",
+    'C09': "tz-aware starts, ints among string bumps in named sequences, a timeseries as the start (every index entry).",
+    'C10': "a polluted / clean default calendar per case, day steps of 1499 / 1500 / 2000, mixed-sign compound bumps, numpy integer bumps.",
+    'C11': "dict-spelt unpivot with reversed labels, a callable y, labels called like the unpivot names, labels spelt like spreadsheet junk ('#1', 'n/a'), an aggregator that hands its argument on.",
+    'C12': "about 20 mixed method lists incl. two tail-aware methods, frames with two columns labelled alike, caller-owned method lists, NaN / infinite / negative / numpy constants.",
+    'C13': "six bound spellings on a half-day grid, tuple spelling, tz-aware and ns / s indexes, frames without columns, one bound a date and the other a time of day, repeated stamps in wrapped windows.",
+    'C14': "buffer views, a cell model comparing .item() values, object arrays in different memory layouts (transposed view, F-order, reversed view).",
+    'C15': "leaf=True cut patterns and wildcard-spelt cells in table_tree, the empty string as a key, list / tuple leaf cells in a single row given as a dict.",
+    'C16': "relabel to the empty name, nested mapping values, falsy single elements (None, 0, '') as ulist operands.",
+    'C17': "mixed lists (plain series next to Bi frames), caller-owned version lists, a zero value, a publication after every re-merge of an older version, read times spelt as numpy.datetime64 / Timestamp.",
+    'C18': "4-deep stacks, the order of undeclared keywords, mutating cached arguments, re-wrapping leaves the wrapped operand unchanged (chain and answers), None / 0 / '' / () in every call slot.",
+    'C19': "numeric dict keys, a second lifted function with keyword defaults, as_list sharing no state with its argument.",
+    'C20': "None cells under defaults, a scalar expiry, renames, a partial cache under a custom column, suites partial_keys (a table keyed by one of two key columns) and named_outputs (f.output with a dict result).",
+}
+for _k, _v in EXTRA3.items():
+    EXTRA[_k] = EXTRA[_k] + ' Rounds 7-9: ' + _v
+
 NOT_READY = set([])
 
 PENDING_REASON = 'check under construction in this session (claimed in DESIGN.md; will move to checks once its module is committed)'
